@@ -48,6 +48,10 @@ pub fn alphabet_multi(seed: u64) -> Vec<(&'static str, Vec<Vec<u8>>)> {
         ("ietf-header-mutated", ietf_mut),
         ("magic-plus-garbage", magic_garbage),
         ("ietf-empty-nonce", ietf_empty_nonce),
+        // valid requests of other legal sizes (only the padding is bigger)
+        ("valid-ietf-1500", ietf_request(&VER_IETF13, None, &nonce(43, 32), 1500)),
+        ("valid-ietf-1028", ietf_request(&VER_IETF13, None, &nonce(44, 32), 1028)),
+        ("valid-classic-1500", classic_request(&nonce(45, 64), 1500)),
     ];
     let mut out: Vec<(&'static str, Vec<Vec<u8>>)> = single.into_iter().map(|(n, d)| (n, vec![d])).collect();
     let c = |k: u64| classic_request(&nonce(0x800 + k, 64), 1024);
